@@ -90,7 +90,7 @@ func c15Oracle(r *SeqRun) []Viol {
 			out = append(out, Viol{Key: "C15/not-fresh-after-clear", What: "after Clear the probe Set/Wait/Get/Del/Wait/Get observed " + got + ", a new cache gives " + want})
 		}
 		if _, probed := r.Probe["p_ttl_left"]; probed && (r.Probe["p_ttl_left"] != 0 || r.Probe["p_ttl_room"] != 1) {
-			out = append(out, Viol{Key: "C15/expiry-processing-not-fresh-after-clear", What: fmt.Sprintf("after Clear a SetWithTTL(1s) entry is still stored=%d after three sweeps 3, 6 and 9 s later (capacity fully free: %d); a new cache reclaims it", r.Probe["p_ttl_left"], r.Probe["p_ttl_room"])})
+			out = append(out, Viol{Key: "C15/expiry-processing-not-fresh-after-clear", What: fmt.Sprintf("after Clear a SetWithTTL(1s) entry is still stored=%d after eight sweeps spread over 24 s (capacity fully free: %d); a new cache reclaims it", r.Probe["p_ttl_left"], r.Probe["p_ttl_room"])})
 		}
 		if r.Probe["m_on"] == 1 {
 			want := "hits=1 misses=1 keys-added=1 keys-evicted=1 cost-added=1 cost-evicted=1"
@@ -177,7 +177,7 @@ func c15Probe(c seqCache, r *SeqRun) {
 			// reclaimed by the sweeps that follow its expiry
 			c.SetTTL(8, 888, 1, time.Second)
 			c.Wait()
-			for i := 0; i < 3; i++ {
+			for i := 0; i < 8 && (i < 3 || c.Resident(8)); i++ { // generous: up to 24 bucket lengths
 				runOp(c, Op{K: "advance", N: 3000})
 				runOp(c, Op{K: "tick"})
 				c.Wait()
